@@ -121,6 +121,7 @@ type cse struct {
 	hold         *holdSpec // overlap cases: the response of process A that is being held
 	ovShape      string
 	ovAt         int
+	vfault       bool // scripted listing faults on a push (paginated server, both users verify)
 	dense        bool // many lockable files + scripted opening with uncommitted removals before scanning hooks
 	denseFiles   []string
 	trigOverride string
